@@ -754,7 +754,8 @@ fn pick_next<M: AsRef<[Machine]>>(
         if let Some(a) = act {
             sq.push_sim(a.clone());
         }
-        return pick_next(sq, client, server, network, current_time);
+        // nothing can happen before the timer's expiry: pick again as of then
+        return pick_next(sq, client, server, network, target);
     }
 
     // what's left is scheduled actions: find the action act on the action,
@@ -765,7 +766,10 @@ fn pick_next<M: AsRef<[Machine]>>(
     if let Some(a) = act {
         sq.push_sim(a.clone());
     }
-    pick_next(sq, client, server, network, current_time)
+    // the action took effect at its due time and nothing can happen before
+    // it: pick again as of then, so that a packet this releases (say, bypass
+    // padding once blocking became bypassable) is not released any earlier
+    pick_next(sq, client, server, network, target)
 }
 
 fn do_internal_timer<M: AsRef<[Machine]>>(
